@@ -1573,6 +1573,7 @@ class PoissonSpatialLikelihood:
 class MatrixBinaryTTest:
     """matrix_binary_t_test: the T-test formulas with N = number of ACTIVE space-magnitude bins (bins holding at least one observed
     event), not the number of events"""
+    directed = staticmethod(lambda: _directed_pairs('binary_paired_t_test_public', False, alpha=0.05))
     qualname = 'csep.core.binomial_evaluations.matrix_binary_t_test'
     case = 'rates in the active bins, at least two active bins'
     properties = ('C08',)
@@ -1663,6 +1664,7 @@ def _binary_pair_objects(c):
 
 def binary_paired_t_case(scale):
     class BPT:
+        directed = staticmethod(lambda: _directed_pairs('binary_paired_t_test_public', scale, alpha=0.05))
         qualname = 'csep.core.binomial_evaluations.binary_paired_t_test'
         case = 'abstract forecasts / catalog, scale=%s' % scale
         properties = ('C08',)
